@@ -1,5 +1,5 @@
 SPECIFICATION TraceSpec
-CONSTANTS MaxJobs = 64  MaxFail = 64  GenDepth = 0  WeakDeps = FALSE  WeakOnce = FALSE  WeakBound = FALSE
+CONSTANTS MaxJobs = 64  MaxFail = 64  GenDepth = 0  WeakDeps = FALSE  WeakOnce = FALSE  WeakBound = FALSE  Dags = {1, 2, 3, 4, 5, 6, 7}
 CONSTRAINT Track
 INVARIANT NoDoubleExec
 INVARIANT DepsFirst
